@@ -69,8 +69,8 @@ def module_text(fname, params, table):
     """table: list of (binding values, [spellings])"""
     sig = ", ".join(p if d is None else f"{p}={d}" for p, d in params)
     if fname.startswith("dc"):
-        lines = ["import dds", "import dataclasses", "", "@dataclasses.dataclass", f"class {fname}:"] + \
-                [f"    {p}: object" + ("" if d is None else f" = {d}") for p, d in params] + [""]
+        # the class lives in a small accepted module of its own (inspect re-parses the whole defining module for every class)
+        lines = ["import dds", f"from DEFSMOD import {fname}", ""]
     else:
         lines = ["import dds", "", f"def {fname}({sig}):", "    return 'r'", ""]
     idx = 0
@@ -86,7 +86,7 @@ def module_text(fname, params, table):
 def tables(tier):
     out = []
     for fname, params in functions(tier):
-        vals = VALUES if (len(params) <= 2 and not fname.startswith("dc")) else SMALLV
+        vals = VALUES if len(params) <= 2 else SMALLV
         table = []
         for combo in itertools.product(vals, repeat=len(params)):
             table.append((list(combo), spellings(params, list(combo))))
@@ -129,6 +129,12 @@ def run_function(fname, params, table, only=None):
     ncalls = 0
     try:
         text, index = module_text(fname, params, table)
+        if fname.startswith("dc"):
+            defs = ["import dataclasses", "", "@dataclasses.dataclass", f"class {fname}:"] + \
+                   [f"    {p}: object" + ("" if d is None else f" = {d}") for p, d in params] + [""]
+            open(os.path.join(root, modname + "_defs.py"), "w").write("\n".join(defs))
+            text = text.replace("DEFSMOD", modname + "_defs")
+            dds.accept_module(modname + "_defs")
         open(os.path.join(root, modname + ".py"), "w").write(text)
         sys.path.insert(0, root)
         importlib.invalidate_caches()
@@ -171,6 +177,7 @@ def run_function(fname, params, table, only=None):
     finally:
         api._store_var = None
         sys.modules.pop(modname, None)
+        sys.modules.pop(modname + "_defs", None)
         if root in sys.path:
             sys.path.remove(root)
         shutil.rmtree(root, ignore_errors=True)
